@@ -1634,6 +1634,23 @@ def _wiring_path(nb, k, n, subsets, lp, e):
             ok = isinstance(out, _Bip39Token) and out.nbits == 8 * nb and len(out.b) == nb
             check(ok and (out.b == secret), f"recover_mnemonic(shares {list(sub)}) does not re-encode the original secret",
                   witness=lambda env: wit(env, sub), fresh=True, timeout_ms=120000)
+        # history on one ShareSet object: asked first with another passphrase (2 symbolic bytes; the real one has 0 or 3), then with
+        # the real one -- the second answer is the secret
+        sub = subsets[0] if k > 1 else (0,)
+        rec["subset"] = sub
+        pw2 = SBytes.sym("pw2", 2)
+        wit2 = lambda env: dict(wit(env, sub), pw2=bytes_env(env, "pw2", 2).hex())  # noqa
+        try:
+            sset = S([sh.Share.parse(texts[i]) for i in sub])
+            try:
+                sset.recover(pw2)
+            except Exception:
+                pass
+            out2 = sset.recover(pw)
+            check((len(out2) == nb) and (out2 == secret), "ShareSet.recover(passphrase) on an object first asked with another passphrase does not "
+                  "return the secret", witness=wit2, fresh=True, timeout_ms=120000)
+        except Exception as ex:
+            check(False, f"ShareSet.recover on one object, second passphrase: raised {type(ex).__name__}: {ex}", witness=wit2)
     finally:
         S.split_secret = _STATE["real_split_secret"]
         S.interpolate = _STATE["real_interpolate"]
@@ -1678,6 +1695,23 @@ def replay_wiring(w):
             return {"violated": True, "observed": f"recover_mnemonic(shares {list(sub)} of {k}-of-{n}, secret {secret.hex()}) raised {ex!r}"}
         if out != m:
             return {"violated": True, "observed": f"recover_mnemonic(shares {list(sub)}) = {out!r} != {m!r}"}
+    if "pw2" in w:
+        sub = subs[0]
+        # (HMAC pads its key with zero bytes, so a passphrase that differs from the real one only by trailing NULs is the same
+        # key for the real PBKDF2 although it is another argument of the uninterpreted one: further members of the class are tried)
+        for pw2 in (bytes.fromhex(w["pw2"]), b"\x01\x02", b"wrong passphrase"):
+            sset = shamir.ShareSet([shamir.Share.parse(texts[i]) for i in sub])
+            try:
+                first = sset.recover(pw2)
+            except Exception as ex:
+                first = repr(ex)
+            try:
+                second = sset.recover(pw)
+            except Exception as ex:
+                return {"violated": True, "observed": f"one ShareSet object: recover({pw2!r}) -> {first!r}, then recover({pw!r}) raised {ex!r}"}
+            if second != secret:
+                return {"violated": True, "observed": f"one ShareSet object: recover({pw2!r}) -> {first.hex() if isinstance(first, bytes) else first}, then "
+                                                      f"recover({pw!r}) -> {second.hex()} instead of the secret {secret.hex()}"}
     return {"violated": False, "observed": "agrees"}
 
 
